@@ -25,6 +25,22 @@ def _pairs(tier, dims):
     return out
 
 
+def _all_reads(p, mk, U):
+    """every public way of reading the quantity built by mk() in unit U: (label, value, unit label reported or None)"""
+    out = [('>>', mk() >> U, None), ('get_in', mk().get_in(U), None)]
+    for label, f in (('<<', lambda q: q << U), ('convert', lambda q: q.convert(U)), ('Unit(q)', lambda q: U(q))):
+        r = f(mk())
+        out.append((label + ' then unit_value', r.unit_value, r.units))
+    q = mk()
+    q <<= U
+    out.append(('<<= then unit_value', q.unit_value, q.units))
+    q = mk()
+    q.unit_value          # an earlier read in the original unit must not stick
+    r = q << U
+    out.append(('unit_value, << then unit_value', r.unit_value, r.units))
+    return out
+
+
 def _code_pi():
     import py_ballisticcalc.unit as unit
     return unit.pi
@@ -60,11 +76,13 @@ def c06_factor(ctx, dim, a):
     first_read = q.unit_value
     ctx.check_eq('factor', first_read, v, rel=1e-6, info={'from': a, 'to': a, 'via': 'unit_value'})
     for b in enum_units()[dim]:
-        got = q >> getattr(p.Unit, b)
+        UB = getattr(p.Unit, b)
         want = v * (table[a] / table[b])
-        ctx.check_eq('factor', got, want, rel=1e-6, info={'from': a, 'to': b})
-        # the same reading through an in-place re-display and unit_value (after an earlier unit_value read)
-        ctx.check_eq('factor', (q << getattr(p.Unit, b)).unit_value, want, rel=1e-6, info={'from': a, 'to': b, 'via': '<< then unit_value'})
+        # the same reading through every public entry point (>>, get_in, <<, <<=, convert, Unit(q), after an earlier unit_value read)
+        for via, got, lab in _all_reads(p, lambda: ua(v), UB):
+            ctx.check_eq('factor', got, want, rel=1e-6, info={'from': a, 'to': b, 'via': via})
+            ctx.check('relabelled_to_the_requested_unit', lab is None or lab == UB, info={'from': a, 'to': b, 'via': via})
+        ctx.check_eq('factor', (q << UB).unit_value, want, rel=1e-6, info={'from': a, 'to': b, 'via': '<< on a quantity already read'})
 
 
 @harness('C06.angle_factor', 'C06', configs=lambda tier: _pairs(tier, ['Angular']), functions=FUNCS,
@@ -99,6 +117,10 @@ def c06_angle_factor(ctx, dim, a):
             if kind == 'tan' and a == b:
                 ctx.check_eq('angle_factor', got, v, rel=1e-6, info={'from': a, 'to': b})
         ctx.check_eq('angle_factor', got, want, rel=1e-6, info={'from': a, 'to': b})
+        UA, UB = getattr(p.Unit, a), getattr(p.Unit, b)
+        for via, got2, lab in _all_reads(p, lambda: UA(v), UB):
+            ctx.check_eq('angle_factor', got2, (v if (kind == 'tan' and a == b) else want), rel=1e-6, info={'from': a, 'to': b, 'via': via})
+            ctx.check('relabelled_to_the_requested_unit', lab is None or lab == UB, info={'from': a, 'to': b, 'via': via})
 
 
 @harness('C06.temperature', 'C06', configs=lambda tier: _pairs(tier, ['Temperature']), functions=FUNCS,
@@ -115,6 +137,10 @@ def c06_temperature(ctx, dim, a):
         want = k / sc - off
         tol = 1e-6 * (ctx.abs(k) / float(sc)) + 1e-9
         ctx.check('affine', ctx.abs(got - want) <= tol, info={'from': a, 'to': b})
+        UA, UB = getattr(p.Unit, a), getattr(p.Unit, b)
+        for via, got2, lab in _all_reads(p, lambda: UA(v), UB):
+            ctx.check('affine', ctx.abs(got2 - want) <= tol, info={'from': a, 'to': b, 'via': via})
+            ctx.check('relabelled_to_the_requested_unit', lab is None or lab == UB, info={'from': a, 'to': b, 'via': via})
 
 
 def _rt_cfg(tier):
